@@ -338,7 +338,7 @@ pub fn run_c14_types(args: &Args) {
     simd_declines::<DD16>(&mut st, "DD16");
     simd_declines::<Cnt>(&mut st, "Cnt");
     simd_declines::<F32Wrap>(&mut st, "F32Wrap");
-    let lengths = crate::shape::lengths_from_args(args, if t { 2048 } else { 384 }, if t { 16384 } else { 8192 }, if t { 100 } else { 30 }, 0xC14);
+    let lengths = crate::shape::lengths_from_args(args, if t { 1024 } else { 384 }, if t { 16384 } else { 8192 }, if t { 60 } else { 30 }, 0xC14);
     for &n in &lengths {
         let mut rng = Rng::new(mix(&[args.seed, n as u64, 0xC14]));
         for dir in DIRS {
